@@ -39,8 +39,9 @@ THEOREMS = [
     "CrCube.C14.margin_median_spec",
 ]
 RULE = ("designs cat x cat, mr x cat, cat x mr, mr x mr, CA (subvar x cat) slices and cat / mr strands; numeric "
-        "values partial / repeated / negative / unsorted / absent; surveys unweighted, integer- or dyadic-weighted, "
-        "plus small count tables with many zero cells (exact-50% splits next to zero-count categories); subtotal "
+        "values partial / repeated / negative / unsorted / absent, also non-binary decimals (2.2, 0.1) and 1e8 + k magnitudes; surveys unweighted, integer- or dyadic-weighted, "
+        "plus small count tables with many zero cells (exact-50% splits next to zero-count categories) and 10^5-range counts "
+        "whose median respondent is the last / first of its category; subtotal "
         "(and difference) vectors, explicit order / hide / prune on both dimensions; a case is non-trivial when "
         "at least one vector has >= 2 distinct numeric values among its respondents; distinct = (design, counts) key")
 ASSUMPTIONS = [
@@ -101,14 +102,52 @@ def _half_vector(rng, values):
     return row
 
 
+DECIMALS = [2.2, 2.2, 0.1, -0.3, 1.5, 7.7, 0.7, 19.99]
+
+
+def _exotic_values(rng, vars_):
+    """replace the small-integer numeric values: decimals that are not binary fractions, or large
+    magnitudes of small spread (1e8 + k) -- both expose cancellation in a variance formula"""
+    mode = rng.choice(["decimal", "decimal", "big", "bigneg"])
+    for v in vars_:
+        for c in v.cats:
+            if c.get("numeric_value") is None or v.kind == "mr":
+                continue
+            if mode == "decimal":
+                c["numeric_value"] = rng.choice(DECIMALS)
+            elif mode == "big":
+                c["numeric_value"] = 100000000 + rng.randint(1, 6)
+            else:
+                c["numeric_value"] = -100000000 - rng.randint(1, 6)
+
+
+def _bighalf_vector(rng, values):
+    """counts in the 10^5 range: the median respondent is the LAST (or first) of its category, an exact
+    half, or an exact half followed by a zero-count category"""
+    n = len(values)
+    vj = sorted((j for j in range(n) if values[j] is not None), key=lambda j: values[j])
+    row = [0] * n
+    if len(vj) < 2:
+        return [rng.choice([0, 1, 100000]) for _ in range(n)]
+    big = rng.choice([100000, 100000, 150000, 250000])
+    s_ = rng.randint(0, len(vj) - 2)
+    t = rng.randint(s_ + 1, len(vj) - 1)
+    kind = rng.choice(["last", "last", "first", "half"])
+    row[vj[s_]] = big + (1 if kind == "last" else 0)
+    row[vj[t]] = big + (1 if kind == "first" else 0)
+    return row
+
+
 def gen_case(rng):
-    typ = rng.choice(["slice"] * 6 + ["table"] * 3 + ["half"] * 3 + ["strand"] * 3 + ["strand_table"] * 2)
+    typ = rng.choice(["slice"] * 6 + ["table"] * 3 + ["half"] * 3 + ["bighalf"] * 2 + ["strand"] * 3 + ["strand_table"] * 2)
     numeric = rng.choice(["some"] * 6 + ["all"] * 2 + ["none"])
     wmode = rng.choice(["unit"] * 4 + ["int"] * 2 + ["dyadic"] * 3)
     if typ in ("strand", "strand_table"):
         kind = rng.choice(["cat"] * 6 + ["mr"])
         v = gen.gen_var(rng, kind, "v0", n=rng.randint(1, 6), numeric=numeric)
         vars_ = [v]
+        if rng.random() < 0.3:
+            _exotic_values(rng, vars_)
         if typ == "strand_table" and kind == "cat":
             sv = []
             for p in range(len(v.cats)):
@@ -124,9 +163,9 @@ def gen_case(rng):
     else:
         design = rng.choice([("cat", "cat")] * 8 + [("mr", "cat")] * 3 + [("cat", "mr")] * 3 + [("ca",)] * 3
                             + [("mr", "mr")])
-        if typ in ("table", "half"):
+        if typ in ("table", "half", "bighalf"):
             design = ("cat", "cat")
-        if typ == "half":
+        if typ in ("half", "bighalf"):
             numeric = rng.choice(["all", "all", "some"])
             ns = [rng.randint(1, 3), rng.randint(3, 6)]
             o = rng.randrange(2)
@@ -138,8 +177,19 @@ def gen_case(rng):
         else:
             vars_ = [gen.gen_var(rng, k, "v%d" % i, n=rng.randint(1, 5), numeric=numeric)
                      for i, k in enumerate(design)]
+        if rng.random() < 0.3:
+            _exotic_values(rng, vars_)
         axes = U.axes_of(vars_)
-        if typ == "table":
+        if typ == "bighalf":
+            # one respondent per cell whose integer weight is the (large) count
+            if o == 0:
+                table = [_bighalf_vector(rng, axes[1].values) for _ in range(axes[0].n)]
+            else:
+                table = U.transpose([_bighalf_vector(rng, axes[0].values) for _ in range(axes[1].n)], axes[0].n)
+            sv = [(F(table[i][j]), [[axes[0].pos[i]], [axes[1].pos[j]]])
+                  for i in range(axes[0].n) for j in range(axes[1].n) if table[i][j]]
+            wmode = "bigint"
+        elif typ == "table":
             table = [[rng.choice([0, 0, 0, 1, 1, 2, 2, 3, 4]) for _ in range(axes[1].n)] for _ in range(axes[0].n)]
             sv = _survey_from_table(rng, vars_, axes, table)
             wmode = rng.choice(["unit", "unit", "int"])
@@ -221,9 +271,21 @@ def _replicate(resps):
     return out
 
 
+def _fq(v):
+    """a numeric value as the exact decimal the payload spells (2.2 -> 11/5), not the binary float"""
+    return F(str(v)) if isinstance(v, float) else F(v)
+
+
+BIG = 5000     # beyond this many (integer-weight) respondents a vector is not expanded one by one
+
+
+def _too_big(resps):
+    return sum((w for w, _ in resps), F(0)) > BIG
+
+
 def oracle(values, resps, int_counts):
     """respondent-level statistics in Python (floats): mean, stddev, median, n valued weight"""
-    ps = [(w, F(values[k])) for w, k in resps if values[k] is not None]
+    ps = [(w, _fq(values[k])) for w, k in resps if values[k] is not None]
     sw = sum((w for w, _ in ps), F(0))
     if sw == 0:
         return {"mean": float("nan"), "stddev": float("nan"), "median": float("nan"), "sw": 0.0}
@@ -231,20 +293,30 @@ def oracle(values, resps, int_counts):
     var = sum((w * (v - mean) ** 2 for w, v in ps), F(0)) / sw
     med = None
     if int_counts:
-        xs = sorted(v for w, v in ps for _ in range(int(w)))
-        n = len(xs)
-        med = float(xs[n // 2]) if n % 2 else float((xs[n // 2 - 1] + xs[n // 2]) / 2)
+        # value of the respondent at (0-based) position k of the sorted expansion, without expanding
+        byval = {}
+        for w, v in ps:
+            byval[v] = byval.get(v, 0) + int(w)
+        order = sorted(byval)
+        n = sum(byval.values())
+        def at(k):
+            acc = 0
+            for v in order:
+                acc += byval[v]
+                if k < acc:
+                    return v
+        med = float(at(n // 2)) if n % 2 else float((at(n // 2 - 1) + at(n // 2)) / 2)
     return {"mean": float(mean), "stddev": math.sqrt(float(var)), "median": med, "sw": float(sw)}
 
 
 def _spec_op(values, resps, int_counts):
-    rs = _replicate(resps) if int_counts else resps
-    return {"op": "scale_spec", "vals": [None if v is None else U.fs(F(v)) for v in values],
+    rs = _replicate(resps) if (int_counts and not _too_big(resps)) else resps
+    return {"op": "scale_spec", "vals": [None if v is None else U.fs(_fq(v)) for v in values],
             "resps": [[U.fs(w), k] for w, k in rs]}
 
 
 def _vals_json(values):
-    return [None if v is None else U.fs(F(v)) for v in values]
+    return [None if v is None else U.fs(_fq(v)) for v in values]
 
 
 def _plan(case):
@@ -307,8 +379,9 @@ def _plan(case):
             # subtotal positions carry NaN values; their margin value is irrelevant (masked out)
             vals = [oax.values[j] for j in shown] + [None] * len(osubs)
             mar = [margin[j] for j in shown] + [F(1)] * len(osubs)
-            add(orient + "_margin", {"op": "scale_margin", "values": _vals_json(vals), "margin": [U.fs(x) for x in mar]})
             allresp = _vector_resps(axes, survey, orient, list(range(vax.n)))
+            if not _too_big(allresp):     # the model expands respondent by respondent: not for 10^5-range counts
+                add(orient + "_margin", {"op": "scale_margin", "values": _vals_json(vals), "margin": [U.fs(x) for x in mar]})
             add(orient + "_margin_spec", _spec_op(oax.values, allresp, intc))
     return plan
 
@@ -321,8 +394,19 @@ def lean_ops(case):
 # evaluation
 
 
+_TOL = {"abs": common.ABS_TOL}
+
+
+def _set_tolerance(vars_):
+    """absolute tolerance scaled to the magnitude of the numeric values: the correct code's mean carries a
+    rounding error of a few ulp of |value| (1.5e-8 for values near 1e8), which is all that is left where the
+    exact deviation is 0"""
+    mags = [abs(float(c["numeric_value"])) for v in vars_ for c in v.cats if c.get("numeric_value") is not None]
+    _TOL["abs"] = max(common.ABS_TOL, 1e-12 * max(mags + [1.0]))
+
+
 def _cmp(findings, kind, locus, what, impl, expected):
-    ok, where = common.deep_close(impl, expected)
+    ok, where = common.deep_close(impl, expected, abs_=_TOL["abs"])
     if not ok:
         findings.append({"kind": kind, "locus": locus,
                          "detail": "%s: impl%s (impl=%r expected=%r)" % (what, where, impl, expected)})
@@ -337,6 +421,7 @@ def evaluate(case, louts, ctx):
     from cr.cube.cube import Cube
     plan = _plan(case)
     vars_, survey, axes, intc = plan["vars"], plan["survey"], plan["axes"], plan["intc"]
+    _set_tolerance(vars_)
     L = lambda name: louts[plan["idx"][name]]  # noqa
     findings = []
     weighted = case["wmode"] != "unit"
@@ -474,13 +559,14 @@ def evaluate(case, louts, ctx):
                         # the defect F6: averaged with the next LISTED value although its count is 0
                         mloc = "slice.scale_median.exact-half-next-value-zero-count"
                 _cmp(findings, "spec", mloc, "%s[%d] vs python oracle" % (names["median"], pos), g["median"], orc["median"])
-                _cmp(findings, "spec", mloc, "%s[%d] vs Lean spec" % (names["median"], pos), g["median"],
-                     common.model_to_float(sp["median"]))
+                if not _too_big(resps):
+                    _cmp(findings, "spec", mloc, "%s[%d] vs Lean spec" % (names["median"], pos), g["median"],
+                         common.model_to_float(sp["median"]))
             vs = {oax.values[k] for w, k in resps if w > 0 and oax.values[k] is not None}
             if len(vs) >= 2:
                 nontrivial = True
         # ---- overall margins
-        if (orient + "_margin") in plan["idx"]:
+        if (orient + "_margin_spec") in plan["idx"]:
             olabels = common.call_impl(lambda: list(part.column_labels if orient == "rows" else part.row_labels))
             otr = tr.get("columns_dimension" if orient == "rows" else "rows_dimension") or {}
             osubs = U.subs_of(oax, otr)
@@ -490,13 +576,14 @@ def evaluate(case, louts, ctx):
                     len([k for k in oorder if k < 0]) != len(osubs) or not labels:
                 ctx.count("margin:skipped")
                 continue
-            mm = L(orient + "_margin")
             impl_mean = common.call_impl(lambda: getattr(part, "%s_scale_mean_margin" % orient))
             impl_med = common.call_impl(lambda: getattr(part, "%s_scale_median_margin" % orient))
-            _cmp(findings, "model", "seam.slice.%s_scale_mean_margin" % orient, "vs Lean model", impl_mean,
-                 U.sout_float(mm["mean"]))
-            _cmp(findings, "model", "seam.slice.%s_scale_median_margin" % orient, "vs Lean model", impl_med,
-                 U.sout_float(mm["median"]))
+            if (orient + "_margin") in plan["idx"]:
+                mm = L(orient + "_margin")
+                _cmp(findings, "model", "seam.slice.%s_scale_mean_margin" % orient, "vs Lean model", impl_mean,
+                     U.sout_float(mm["mean"]))
+                _cmp(findings, "model", "seam.slice.%s_scale_median_margin" % orient, "vs Lean model", impl_med,
+                     U.sout_float(mm["median"]))
             if len(shown) == oax.n:
                 sp = L(orient + "_margin_spec")
                 allresp = _vector_resps(axes, survey, orient, list(range(vax.n)))
@@ -513,8 +600,9 @@ def evaluate(case, louts, ctx):
                     if intc:
                         _cmp(findings, "spec", "slice.%s_scale_median_margin" % orient, "vs python oracle", impl_med,
                              orc["median"])
-                        _cmp(findings, "spec", "slice.%s_scale_median_margin" % orient, "vs Lean spec", impl_med,
-                             common.model_to_float(sp["median"]))
+                        if not _too_big(allresp):
+                            _cmp(findings, "spec", "slice.%s_scale_median_margin" % orient, "vs Lean spec", impl_med,
+                                 common.model_to_float(sp["median"]))
     if nontrivial:
         key = ("slice", axes[0].role, axes[1].role, tuple(tuple(r) for r in plan["counts"]),
                tuple(axes[0].values), tuple(axes[1].values))
